@@ -585,6 +585,42 @@ func isContainTxnID""", """	for i := range list {
 }
 
 func isContainTxnID""", ['C16-R6 [removeTxnID:drops-only-the-given-id]'])
+PSE = 'lib/execution/executors/point_scan_with_index_executor.go'
+THI = 'lib/storage/access/table_heap_iterator.go'
+CKP = 'lib/concurrency/checkpoint_manager.go'
+m('readpage-keeps-head-of-torn-page', ['C01', 'C20'], DM, """		for i := 0; i < common.PageSize; i++ {
+			pageData[i] = 0""", """		for i := bytesRead; i < common.PageSize; i++ {
+			pageData[i] = 0""", ['C01-R11 [ReadPage:short-read-yields-an-empty-page]'])
+m('point-scan-stops-at-own-deleted-row', ['C04'], PSE, """		if err == access.ErrSelfDeletedCase {
+			continue
+		}""", """		if err == access.ErrSelfDeletedCase {
+			break
+		}""", ['C04-R9 [PointScan.Init:self-deleted-entry-does-not-end-the-scan]'])
+m('point-scan-returns-own-deleted-row', ['C04'], PSE, """		if err == access.ErrSelfDeletedCase {
+			continue
+		}""", """""", ['C04-R9 [PointScan.Init:self-deleted-row-is-not-returned]'])
+m('checkpoint-forces-log-before-blocking', ['C08', 'C01'], CKP, """	cm.transactionManager.BlockAllTransactions()
+	// write-ahead rule: the log must be on disk before the pages which it describes
+	cm.logManager.Flush()""", """	// write-ahead rule: the log must be on disk before the pages which it describes
+	cm.logManager.Flush()
+	cm.transactionManager.BlockAllTransactions()""", ['C08-R4 [BeginCheckpoint:log-forced-after-blocking]'])
+m('range-bound-aliases-where-constant', ['C06', 'C11'], SO, """			r.Min = rhs.GetDeepCopy()
+			r.MinInclusive = true
+		}
+	default:""", """			r.Min = rhs
+			r.MinInclusive = true
+		}
+	default:""", ['C06-R7 [(*planner/optimizer.Range).Update:range-bound-is-a-private-copy:Min'])
+m('lock-shared-records-holder-twice', ['C16'], LK, """			if isContainTxnID(arr, txn.GetTransactionID()) {
+				return true
+			} else {""", """			if len(arr) < 0 {
+				return true
+			} else {""", ['C16-R7 [LockShared:holder-added-only-when-absent]', 'C16-R7 [floor:`already a holder` tests in LockShared]'])
+m('hash-join-tmp-page-unpinned-clean', ['C11', 'C13'], HJE, """	// unpin the last tmp page (it is fetched again when its tuples are read)
+	if tmpPageID != common.InvalidPageID {
+		e.context.GetBufferPoolManager().UnpinPage(tmpPageID, true)""", """	// unpin the last tmp page (it is fetched again when its tuples are read)
+	if tmpPageID != common.InvalidPageID {
+		e.context.GetBufferPoolManager().UnpinPage(tmpPageID, false)""", ['C13-R8/join [(*execution/executors.HashJoinExecutor).Init:modified-page-unpinned-clean]', 'C13-R8 [(*execution/executors.HashJoinExecutor).Init:modified-page-unpinned-clean]'])
 # drop the one that needs a helper that does not exist
 M = [x for x in M if x['id'] != 'insert-executor-unlocks-early']
 os.chdir(os.path.dirname(os.path.abspath(__file__)) + '/..')
